@@ -144,10 +144,27 @@ def _prio_model(n, ops):
     return steps
 
 
+def _wire_prio(ctx, wire):
+    for i, c in enumerate(wire):
+        c["id"] = i + 1
+    res = ctx.harness("h2conn", ["prio"], cases=wire, timeout=1500)
+    out = [r for r in res if "id" in r]
+    mach = [r for r in res if "_harness_exit" in r or "_bad_case" in r or r.get("machinery")]
+    if mach or len(out) != len(wire):
+        raise vlib.MachineryError("h2conn prio: %d results for %d cases; %s" % (len(out), len(wire), str(mach[:2])[:600]))
+    if not any(r.get("steps", 0) > 0 for r in out):
+        raise vlib.MachineryError("h2conn prio: no operation was executed on the wire")
+    by_id = {c["id"]: c for c in wire}
+    for r in out:
+        if not r.get("ok", False):
+            ctx.report(r.get("sig", "unknown"), (r.get("detail") or "")[:1500],
+                       case={"sub": "wire-prio", "case": _strip(by_id[r["id"]])}, harness="h2conn", cmd="prio")
+
+
 def check_c36(ctx):
     q = ctx.tier == "quick"
     ctx.cov["rule"] = ("one TLC run checks Acyclic on every reachable state of Priority.tla (N stream objects, all "
-                       "Open/PRIORITY/Close operations with every dependency incl. self, idle, closed, exclusive) and "
+                       "Open/PRIORITY/Close operations with every dependency incl. self, idle, closed, exclusive; the histories are also sent as real HEADERS/PRIORITY/RST_STREAM frames to a real serverConn whose parent pointers are read on the serve loop after each frame) and "
                        "prints every transition; each transition is replayed on real *stream objects through the real "
                        "adjustStreamPriority/processPriority (pre-state built from the printed snapshot) and compared: "
                        "acyclic + returns = property, equal parent map = mechanism.  Plus TLC-simulated and seeded long "
@@ -173,6 +190,12 @@ def check_c36(ctx):
         cases.append({"ops": _prio_model(9, c["ops"])})
     res = _run(ctx, "prio-run", cases)
     _judge(ctx, "prio-run", cases, res, "priority")
+    # the same histories as real frames on a real serverConn (processHeaders / processPriority / closeStream
+    # as the serve loop runs them): HEADERS carrying priority fields, PRIORITY, RST_STREAM
+    hist = [{"ops": c["ops"]} for c in cases if "ops" in c]
+    wire = hist[:150] if q else hist[:1500]
+    _wire_prio(ctx, wire)
+    ctx.cov["constants"]["wire_histories"] = len(wire)
     for c in cases:
         if "pre" in c:
             ctx.count([c["pre"], c["op"]], nontrivial=c["pre"] != c["post"] or c["op"]["k"] == "prio")
@@ -458,8 +481,11 @@ def replay(ctx, pid, rep):
         rc = ctx.finish()
         print("replay: %s" % ("violation reproduced" if rc == 1 else "no violation on the current tree"))
         return rc
-    res = _run(ctx, sub, [c])
-    _judge(ctx, sub, [c], res, "replay")
+    if sub == "wire-prio":
+        _wire_prio(ctx, [c])
+    else:
+        res = _run(ctx, sub, [c])
+        _judge(ctx, sub, [c], res, "replay")
     rc = ctx.finish()
     print("replay: %s" % ("violation reproduced" if rc == 1 else "no violation on the current tree"))
     return rc
